@@ -172,10 +172,11 @@ impl Check for C01 {
             bounds: json!({"branches": tier.pick("2, and 3 with <=2 bodies and <=1 interrupt", "2 and 3 (deviation bound 4 when 3 interrupts are open)"), "horizon": 400}),
         }
     }
-    fn items(&self, tier: Tier) -> Vec<String> {
-        cases(tier).into_iter().map(|c| c.id).collect()
+    fn items(&self, tier: Tier) -> Vec<serde_json::Value> {
+        cases(tier).into_iter().enumerate().map(|(i, c)| json!({"id": c.id, "idx": i})).collect()
     }
-    fn run_item(&self, tier: Tier, idx: usize, _id: &str, out: &mut ItemOut) {
+    fn run_item(&self, tier: Tier, item: &serde_json::Value, out: &mut ItemOut) {
+        let idx = item["idx"].as_u64().unwrap() as usize;
         let c = cases(tier).swap_remove(idx);
         let scn_desc = json!({"model": c.yml, "vars": {"a": c.a, "b": c.b}, "policy": "complete-any-open-irq"});
         let st = explore_scenario(out, "C01", &c.id, &scn_desc, c.bound, c.cap, idx % 97 == 0, &|ch, log| {
